@@ -3,10 +3,10 @@
 CONF = dict(
     cmd='c09',
     props='Props/C09.v',
-    rule=('datagrams sent to the real IP and SCION listeners on loopback from three sockets (two ports on the listener address, one other address): all 256 first '
- 'header bytes x lengths {47,48,49,76,100} (thorough: 0..50,76,100,1024,2048) with zero/random/server-look-alike/client/interleaved headers and zero/random/'
+    rule=('datagrams sent to the real IP and SCION listeners on loopback from twelve sockets (ten ports on the listener address - more than there are listener goroutines, so some share one - and two on another address): all 256 first '
+ 'header bytes x lengths {0,47,48,49,50,75,76,100} (thorough: 0..50,76,100,1024,2048) with zero/random/server-look-alike/client/interleaved headers and zero/random/'
  'NTS-shaped/second-header trailing data; all lengths 0..64 and 1023..1025, 2047..2049, 2100, 4000; real NTS requests (real cookie, nts.NewRequestPacket) intact '
- 'and damaged in 9 ways x valid/invalid first bytes; multi-step histories that reflect observed replies back, follow up in interleaved mode, switch sockets; over '
+ 'and damaged in 11 ways (before and after authentication) x valid/invalid first bytes; multi-step histories that reflect observed replies back, follow up in interleaved mode, switch sockets, send bursts of 2-7 datagrams back to back before the sentinel; over '
  'SCION additionally IPv4/IPv6/service host address mixes, empty/SCION(1-3 segments)/one-hop paths, end-host-port underlay, wrong L4 port. Reply/no reply decided '
  'by a sentinel request sent afterwards from the same socket. Plus ntp.DecodePacket/ValidateRequest/EncodePacket and handleRequest called directly for every first '
  'byte. Non-trivial: the history contains a payload of at least 48 bytes (the decision depends on the first byte / the trailing data) or an NTS / reflected / '
